@@ -67,16 +67,25 @@ def decorate_exception(exception, message: str):
     return exception
 
 
-@contextlib.contextmanager
-def try_with_lazy_message(lazy_message: Callable[[], str]):
-  """Context manager which reraises exceptions."""
-  try:
-    yield
-  except Exception as exc:  # pylint: disable=broad-except
+class try_with_lazy_message(contextlib.AbstractContextManager):  # pylint: disable=invalid-name
+  """Context manager which reraises exceptions.
+
+  This is a class rather than a `@contextlib.contextmanager` generator because
+  an exception raised inside a generator is subject to PEP 479: a
+  `StopIteration` raised by the wrapped code would leave the `with` statement
+  as `RuntimeError('generator raised StopIteration')`.
+  """
+
+  def __init__(self, lazy_message: Callable[[], str]):
+    self._lazy_message = lazy_message
+
+  def __exit__(self, exc_type, exc, traceback):
+    if not isinstance(exc, Exception):
+      return False  # No exception, or a BaseException that is not wrapped.
     try:
-      message = lazy_message()
-    except:  # pylint: disable=broad-except
+      message = self._lazy_message()
+    except:  # pylint: disable=bare-except
       logging.exception('Formatting the debug information failed.')
-      raise exc from None
+      return False  # Propagate the original exception.
     else:
       raise decorate_exception(exc, message) from None
